@@ -86,11 +86,13 @@ static void mode_snn(std::size_t n, std::size_t bs, std::size_t q, std::size_t k
 	LinearKernel<> kern; SimpleNearestNeighbors<RealVector,unsigned int> nn(data, &kern);
 	auto qs = points(q, d, -20, 20); RealMatrix Q(q, d); for(std::size_t i = 0; i != q; ++i) noalias(row(Q, i)) = qs[i];
 	auto res = nn.getNeighbors(Q, k);
-	// spec monitor in place: key must be the true squared distance to the point named by the label (labels are ids)
+	// spec monitor in place: key must be the true distance to the point named by the label (labels are ids).
+	// Coordinates are small integers, so the squared distance is exact and its sqrt is correctly rounded;
+	// (SimpleNearestNeighbors reports distances, like TreeNearestNeighbors, since /repo commit fcb2bb5e).
 	std::size_t bad = 0;
 	for(std::size_t i = 0; i != res.size(); ++i){
 		std::size_t qi = i / k; unsigned id = res[i].value;
-		if(id >= n || distanceSqr(qs[qi], in[id]) != res[i].key) ++bad;
+		if(id >= n || std::sqrt(distanceSqr(qs[qi], in[id])) != res[i].key) ++bad;
 	}
 	printf("snn.keys"); for(auto const& r : res) printf(" %a", r.key); printf("\n");
 	printf("snn.inconsistent_pairs %zu\n", bad);
